@@ -9,7 +9,7 @@ From Coq Require Import String.
 Fixpoint lead (e : expr) : bool :=
   match e with
   | EId _ => true
-  | EDot t _ => lead t
+  | EDot t _ | EIndex t _ => lead t
   | ENum _ | ERe _ _ => false
   | _ => true
   end.
@@ -18,6 +18,8 @@ Fixpoint lexok (e : expr) : Prop :=
   | EDot t _ => lexok t
   | EUn o v => lexok v /\ (is_update_pre (IOp o) = true -> lead v = true)
   | EBin _ l r => lexok l /\ lexok r
+  | ECond c y n => lexok c /\ lexok y /\ lexok n
+  | EIndex t i => lexok t /\ lexok i
   | _ => True
   end.
 
@@ -79,6 +81,33 @@ Proof.
     rewrite (last_cons_default (IOp o) (fb :: tb) fa fb) by discriminate. exact Heb.
 Qed.
 
+(* a separator that takes an operand on both sides ("?", ":", "[") *)
+Lemma G_infix a b x : Good a -> Good b ->
+  ends_operand x = false -> is_update_pre x = false -> adj (last a IOpen) x = true -> Good (a ++ [x] ++ b).
+Proof.
+  intros (fa & ta & Ea & Hsa & Hca & Hea) (fb & tb & Eb & Hsb & Hcb & Heb) Hx Hu Hadj. subst a b.
+  exists fa, (ta ++ [x] ++ fb :: tb). repeat split; auto.
+  - rewrite chain_app, Hca. simpl andb. simpl app.
+    rewrite (last_indep (fa :: ta) IOpen fa) in Hadj by discriminate.
+    assert (A2 : adj x fb = true) by (unfold adj; rewrite Hx, Hsb, Hu; reflexivity).
+    destruct ta as [|y ta']; cbn [chain]; rewrite A2, Hcb.
+    + simpl in Hadj. rewrite Hadj. reflexivity.
+    + rewrite (last_cons_default fa (y :: ta') fa y) in Hadj by discriminate. rewrite Hadj. reflexivity.
+  - change ((fa :: ta) ++ [x] ++ fb :: tb) with ((fa :: ta) ++ ([x] ++ fb :: tb)).
+    rewrite last_app_ne by discriminate. simpl app.
+    rewrite (last_cons_default x (fb :: tb) fa fb) by discriminate. exact Heb.
+Qed.
+Lemma G_closer a x : Good a -> ends_operand x = true -> (forall z, ends_operand z = true -> adj z x = true) -> Good (a ++ [x]).
+Proof.
+  intros (f & tl & E & Hs & Hc & He) Hx Hadj. subst a. exists f, (tl ++ [x]). repeat split; auto.
+  - rewrite chain_app, Hc. simpl andb. cbn [chain]. rewrite andb_true_r.
+    destruct tl as [|y tl']; [apply Hadj; exact He|]. apply Hadj. rewrite <- He.
+    rewrite (last_cons_default f (y :: tl') f y) by discriminate. reflexivity.
+  - rewrite last_app_ne by discriminate. exact Hx.
+Qed.
+Lemma good_last_ends a : Good a -> ends_operand (last a IOpen) = true.
+Proof. intros (f & tl & E & _ & _ & He). subst a. rewrite (last_indep (f :: tl) IOpen f) by discriminate. exact He. Qed.
+
 Lemma G_pre a o : Good a -> op_kind o = KPre ->
   (is_update_pre (IOp o) = true -> match a with IId _ :: _ | IOpen :: _ => True | _ => False end) -> Good (IOp o :: a).
 Proof.
@@ -91,7 +120,7 @@ Proof.
 Qed.
 
 Lemma G_post a o : Good a -> op_kind o = KPost ->
-  (match last a IOpen with IId _ | IDot _ | IClose => True | _ => False end) -> Good (a ++ [IOp o]).
+  (match last a IOpen with IId _ | IDot _ | IClose | IRBrack => True | _ => False end) -> Good (a ++ [IOp o]).
 Proof.
   intros (f & tl & E & Hs & Hc & He) Hk Hl. subst a. exists f, (tl ++ [IOp o]). repeat split; auto.
   - rewrite chain_app, Hc. simpl andb. cbn [chain]. rewrite andb_true_r.
@@ -122,26 +151,48 @@ Proof. destruct a; [congruence | reflexivity]. Qed.
 
 Definition simple_head (l : list item) : Prop := match l with IId _ :: _ | IOpen :: _ => True | _ => False end.
 
-Lemma wrapped19 t : wf t -> compound t = true -> wrapped LPostfix t = true.
+Lemma wrapped19c t : compound t = true -> wrapped LPostfix t = true.
 Proof.
-  intros Hwf Hc. unfold wrapped. rewrite Hc. simpl. rewrite Z.geb_leb. apply Z.leb_le.
-  destruct t as [| | | |u w|o2 a b2]; try discriminate; simpl; [pose proof (op_level_pos u) | pose proof (op_level_pos o2)]; unfold LPostfix; lia.
+  intro Hc. unfold wrapped. rewrite Hc. simpl. rewrite Z.geb_leb. apply Z.leb_le.
+  destruct t as [| | | |u w|o2 a b2|c0 y0 n0|]; try discriminate; simpl;
+    [pose proof (op_level_pos u) | pose proof (op_level_pos o2)]; unfold LPostfix; lia.
 Qed.
+
+(* the last item of a member-access target is never a postfix operator *)
+Lemma last19 t : is_post (last (print_items LPostfix t) IOpen) = false.
+Proof.
+  rewrite print_items_split. destruct (compound t) eqn:Ec.
+  - rewrite (wrapped19c t Ec). rewrite app_assoc, last_app_ne by discriminate. reflexivity.
+  - unfold wrapped. rewrite Ec. simpl. destruct t; try discriminate; try reflexivity; unfold body; cbn [print_items].
+    + rewrite last_app_ne by discriminate. reflexivity.
+    + rewrite !app_assoc, last_app_ne by discriminate. reflexivity.
+Qed.
+
+(* leftmost item of a member chain whose base leads with an identifier or "(" *)
+Lemma lead_head : forall t, lead t = true -> simple_head (print_items LPostfix t).
+Proof.
+  induction t as [s0| | |t0 IH0 s0|u w IHw|o2 a IHa b2 IHb|c0 IHc0 y0 IHy0 n0 IHn0|t0 IH0 i0 IHi0]; intro Hl; try discriminate; try exact I.
+  - cbn [print_items]. specialize (IH0 Hl).
+    destruct (print_items LPostfix t0) as [|x l0]; [destruct IH0|]. destruct x; try destruct IH0; exact I.
+  - rewrite print_items_split, (wrapped19c (EUn u w) eq_refl). exact I.
+  - rewrite print_items_split, (wrapped19c (EBin o2 a b2) eq_refl). exact I.
+  - cbn [print_items]. specialize (IH0 Hl).
+    destruct (print_items LPostfix t0) as [|x l0]; [destruct IH0|]. destruct x; try destruct IH0; exact I.
+Qed.
+
+Lemma ender_adj x : (x = IClose \/ x = IRBrack \/ x = IQuest \/ x = IColon) -> forall z, ends_operand z = true -> adj z x = true.
+Proof. intros Hx z Hz. unfold adj. rewrite Hz. destruct Hx as [E|[E|[E|E]]]; subst x; reflexivity. Qed.
 
 Theorem print_items_good : forall e, wf e -> lexok e -> forall P,
   Good (print_items P e) /\ Forall item_ok (print_items P e).
 Proof.
-  induction e as [s|s|b f|t IHt s|o v IHv|o l IHl r IHr]; intros Hwf Hlx P.
+  induction e as [s|s|b f|t IHt s|o v IHv|o l IHl r IHr|c IHc y IHy n IHn|t IHt i IHi]; intros Hwf Hlx P.
   - split; [apply G_atom; reflexivity | constructor; [exact Hwf | constructor]].
   - split; [apply G_atom; reflexivity | constructor; [exact Hwf | constructor]].
   - split; [apply G_atom; reflexivity | constructor; [exact Hwf | constructor]].
   - destruct Hwf as (Hwt & Hs1 & Hs2). simpl in Hlx. destruct (IHt Hwt Hlx LPostfix) as [Gt Ft].
     cbn [print_items]. split.
-    + apply G_dot; [exact Gt|].
-      rewrite print_items_split. destruct (compound t) eqn:Ec.
-      * rewrite (wrapped19 t Hwt Ec). rewrite app_assoc, last_app_ne by discriminate. reflexivity.
-      * unfold wrapped. rewrite Ec. simpl. destruct t; try discriminate; try reflexivity.
-        unfold body. cbn [print_items]. rewrite last_app_ne by discriminate. reflexivity.
+    + apply G_dot; [exact Gt | apply last19].
     + apply Forall_app. split; [exact Ft | constructor; [split; assumption | constructor]].
   - destruct Hwf as (Hwv & Hku & Hupd). destruct Hlx as (Hlv & Hlead).
     assert (B : Good (body (EUn o v)) /\ Forall item_ok (body (EUn o v))).
@@ -150,22 +201,14 @@ Proof.
         apply G_pre; [exact Gv | exact Ek|]. intro Hu.
         assert (Hio : is_update o = true) by (destruct o; try discriminate; reflexivity).
         specialize (Hupd Hio). specialize (Hlead Hu).
-        destruct v as [s| | |t s| |]; try discriminate; [exact I|].
-        cbn [print_items]. simpl in Hlead. destruct Hwv as (Hwt & _). simpl in Hlv.
-        (* leftmost item of a member chain whose base leads with an identifier or "(" *)
-        clear -Hlead Hwt Hlv IHv. 
-        assert (H : forall t, wf t -> lead t = true -> simple_head (print_items LPostfix t)).
-        { clear. induction t as [s0| | |t0 IH0 s0|u w _|o2 a _ b2 _]; intros Hw Hl; try discriminate; try exact I.
-          - cbn [print_items]. destruct Hw as (Hw0 & _). specialize (IH0 Hw0 Hl).
-            destruct (print_items LPostfix t0) as [|i l0]; [destruct IH0|]. destruct i; try destruct IH0; exact I.
-          - rewrite print_items_split, (wrapped19 _ Hw eq_refl). exact I.
-          - rewrite print_items_split, (wrapped19 _ Hw eq_refl). exact I. }
-        specialize (H t Hwt Hlead). destruct (print_items LPostfix t) as [|i l0]; [destruct H|]. destruct i; try destruct H; exact I.
+        destruct v as [s| | |t s| | | |t i]; try discriminate; [exact I| |]; cbn [print_items]; simpl in Hlead;
+          pose proof (lead_head t Hlead) as H; (destruct (print_items LPostfix t) as [|x l0]; [destruct H|]); destruct x; try destruct H; exact I.
       - destruct (IHv Hwv Hlv (LPostfix - 1)) as [Gv Fv]. split; [|apply Forall_app; split; [exact Fv | constructor; [exact I | constructor]]].
         apply G_post; [exact Gv | exact Ek|].
         assert (Hio : is_update o = true) by (destruct o; try discriminate; reflexivity).
-        specialize (Hupd Hio). destruct v; try discriminate; [exact I|].
-        cbn [print_items]. rewrite last_app_ne by discriminate. exact I.
+        specialize (Hupd Hio). destruct v; try discriminate; [exact I| |]; cbn [print_items].
+        + rewrite last_app_ne by discriminate. exact I.
+        + rewrite !app_assoc, last_app_ne by discriminate. exact I.
       - congruence. }
     destruct B as [GB FB]. rewrite print_items_split. destruct (wrapped P (EUn o v)).
     + split; [apply G_paren; exact GB|]. apply Forall_app. split; [constructor; [exact I | constructor]|]. apply Forall_app. split; [exact FB | constructor; [exact I | constructor]].
@@ -177,6 +220,29 @@ Proof.
     destruct B as [GB FB]. rewrite print_items_split. destruct (wrapped P (EBin o l r)).
     + split; [apply G_paren; exact GB|]. apply Forall_app. split; [constructor; [exact I | constructor]|]. apply Forall_app. split; [exact FB | constructor; [exact I | constructor]].
     + split; assumption.
+  - (* conditional *)
+    destruct Hwf as (Hwc & Hwy & Hwn). destruct Hlx as (Hlc & Hly & Hln).
+    assert (B : Good (body (ECond c y n)) /\ Forall item_ok (body (ECond c y n))).
+    { rewrite body_cond. destruct (IHc Hwc Hlc LConditional) as [Gc Fc]. destruct (IHy Hwy Hly LYield) as [Gy Fy]. destruct (IHn Hwn Hln LYield) as [Gn Fn].
+      split.
+      - apply G_infix; [exact Gc | | reflexivity | reflexivity | apply ender_adj; [auto | apply good_last_ends; exact Gc]].
+        apply G_infix; [exact Gy | exact Gn | reflexivity | reflexivity | apply ender_adj; [auto | apply good_last_ends; exact Gy]].
+      - apply Forall_app. split; [exact Fc|]. apply Forall_app. split; [constructor; [exact I | constructor]|].
+        apply Forall_app. split; [exact Fy|]. apply Forall_app. split; [constructor; [exact I | constructor] | exact Fn]. }
+    destruct B as [GB FB]. rewrite print_items_split. destruct (wrapped P (ECond c y n)).
+    + split; [apply G_paren; exact GB|]. apply Forall_app. split; [constructor; [exact I | constructor]|]. apply Forall_app. split; [exact FB | constructor; [exact I | constructor]].
+    + split; assumption.
+  - (* index access *)
+    destruct Hwf as (Hwt & Hwi). destruct Hlx as (Hlt & Hli).
+    destruct (IHt Hwt Hlt LPostfix) as [Gt Ft]. destruct (IHi Hwi Hli LLowest) as [Gi Fi].
+    cbn [print_items]. split.
+    + replace (print_items LPostfix t ++ [ILBrack] ++ print_items LLowest i ++ [IRBrack])
+        with (print_items LPostfix t ++ [ILBrack] ++ (print_items LLowest i ++ [IRBrack])) by reflexivity.
+      apply G_infix; [exact Gt | | reflexivity | reflexivity |].
+      * apply G_closer; [exact Gi | reflexivity | apply ender_adj; auto].
+      * unfold adj. rewrite (good_last_ends _ Gt), last19. reflexivity.
+    + apply Forall_app. split; [exact Ft|]. apply Forall_app. split; [constructor; [exact I | constructor]|].
+      apply Forall_app. split; [exact Fi | constructor; [exact I | constructor]].
 Qed.
 
 Lemma good_chain l : Good l -> chain None l = true.
